@@ -609,6 +609,56 @@ def mirror(R, ctx):
     R.require(rid, "floor:cases", n >= 30, "", "%d input/output spellings evaluated" % n)
 
 
+def deletion_list(R, ctx, rid="C11.delete", status_rid=None):
+    """What darklua deletes: the list that is drained into Resources::remove."""
+    from .. import guards
+    lib = ctx.lib
+    M = guards.Mentions(ctx.an)
+    R.rule(rid, "the files darklua deletes at the end of a pass are the elements of one list (the field whose drained elements reach "
+                "Resources::remove). Every operation that adds to that list is control-dependent on a condition that asks the item whether it "
+                "is processed in place (`is_in_place`): the output path of an in-place item is its source, so an unguarded addition deletes a "
+                "source file (or, with an output location, whatever sits at a failing item's destination)"
+                + ("; and no such condition consults the item's processing status: the output of a removed source has to go whether or not the "
+                   "item was reset (restarted) since it was last written" if status_rid else ""))
+    # the deleting function: calls `remove` on a Resources value with an element drained / iterated from a field of self
+    fields = set()
+    for f in lib.fn_list:
+        if not thir.body_of(f) or "frontend" not in f["path"]:
+            continue
+        rem = [c for c in thir.calls(f) if c.get("fname") == "remove" and c["args"] and "Resources" in lib.ty_str(lib.strip_refs(c["args"][0]["t"]))]
+        if not rem:
+            continue
+        fa = ctx.an.fa(f["path"])
+        for c in thir.calls(f):
+            if c.get("fname") in ("drain", "iter", "into_iter", "take") and c["args"]:
+                for o in fa.origins(c["args"][0]):
+                    if isinstance(o[0], str) and o[0] in lib.adts and "Vec<std::path::PathBuf>" in next((fl.get("tys", "") for fl in lib.adts[o[0]]["variants"][0]["fields"] if fl["name"] == o[1]), ""):
+                        fields.add((o[0], o[1]))
+    if not R.require(rid, "anchor:deletion-list", len(fields) == 1, "", "field(s) drained into Resources::remove: %s" % sorted(fields)):
+        return
+    adt, fld = next(iter(fields))
+    in_place = lambda n: n.get("k") in ("Call", "Zst") and n.get("fname") == "is_in_place"
+    status = lambda n: (n.get("k") == "Field" and n.get("f") == "status") or (n.get("k") in ("Call", "Zst") and n.get("fname") in ("is_done", "is_not_started", "is_in_progress", "status"))
+    n = 0
+    for f in lib.fn_list:
+        if not thir.body_of(f) or not (f.get("self_tys") or "").startswith(adt):
+            continue
+        fa = ctx.an.fa(f["path"])
+        for c in thir.calls(f):
+            if c.get("fname") in ("push", "extend", "insert", "append", "extend_from_slice") and c["args"] and (adt, fld) in fa.origins(c["args"][0]):
+                n += 1
+                short = f["path"].split("::")[-1]
+                g = M.guarded(fa, c, in_place)
+                R.ob(rid, "%s|addition@%d|asks-in-place" % (short, n), g, ctx.where(f, c.get("ln")),
+                     "guarded by is_in_place" if g else "a path is scheduled for deletion without asking whether the item is processed in place")
+                if status_rid:
+                    st = M.guarded(fa, c, status)
+                    R.ob(status_rid, "%s|addition@%d|whatever-the-status" % (short, n), not st, ctx.where(f, c.get("ln")),
+                         "independent of the processing status" if not st else "the output of a removed source is only deleted for some processing statuses: "
+                         "an item restarted (edited, or a dependency edited) and removed before the next pass leaves its stale output behind")
+    R.require(rid, "floor", n >= 2, "", "%d additions to %s.%s" % (n, adt.split("::")[-1], fld))
+
+
 def run(R, ctx):
     R.explanation = (
         "Who-may-write tables, MIR dominance/must-pass rules on the worker's write/done/flush paths, the error arm of the work loop, "
@@ -631,3 +681,4 @@ def run(R, ctx):
     # the one documented way for a readable, parseable file to get no output is the top-level filter: its decision table (shared with C20)
     from . import c20
     c20.table(R, ctx, rid="C11.filter")
+    deletion_list(R, ctx)
